@@ -75,6 +75,8 @@ pub struct Profile {
     /// forged consensus messages (C09)
     pub forger: bool,
     pub corrupt_permille: u64,
+    /// fault-free, equal stakes, constant equal link latency: one voting round is deterministic
+    pub lockstep: bool,
 }
 
 impl Profile {
@@ -95,6 +97,7 @@ impl Profile {
             hostile: false,
             forger: false,
             corrupt_permille: 0,
+            lockstep: false,
         }
     }
 }
@@ -141,7 +144,7 @@ fn permille(p: u64) -> bool {
 /// Draws one run's configuration from the `config` stream.
 pub fn draw_cfg(p: &Profile) -> ClusterCfg {
     let n = p.min_n + kernel::choose(CFG, (p.max_n - p.min_n + 1) as u64) as usize;
-    let (stakes, stake_kind) = if p.fault_free && kernel::choose(CFG, 2) == 0 {
+    let (stakes, stake_kind) = if p.lockstep || p.fault_free && kernel::choose(CFG, 2) == 0 {
         (vec![1; n], "equal")
     } else {
         keys::draw_stakes(n, CFG)
@@ -179,7 +182,7 @@ pub fn draw_cfg(p: &Profile) -> ClusterCfg {
 
     let mut net = NetCfg::benign(n);
     net.base_ms = 1 + kernel::choose(CFG, 40);
-    net.jitter_ms = kernel::choose(CFG, 60);
+    net.jitter_ms = if p.lockstep { 0 } else { kernel::choose(CFG, 60) };
     let mut faults = Vec::new();
     if !p.fault_free {
         if permille(p.netfault_permille) {
@@ -268,7 +271,7 @@ pub fn draw_cfg(p: &Profile) -> ClusterCfg {
     if p.liveness {
         let ts = if p.fault_free { 0 } else { kernel::choose(CFG, (duration_ms / 2 / 500).max(1)) * 500 };
         net.stabilise_at_ms = Some(ts);
-        net.post_delay_ms = 20 + kernel::choose(CFG, 9) * 10; // <= 100 ms, below DELTA
+        net.post_delay_ms = if p.lockstep { 100 } else { 20 + kernel::choose(CFG, 9) * 10 }; // <= 100 ms, below DELTA
         // all scheduled faults end by the stabilisation time
         for f in &mut faults {
             match f {
@@ -548,7 +551,12 @@ async fn run_async(profile: &Profile, cfg: ClusterCfg) -> ClusterOutcome {
     let o = observer.borrow();
     let fin_nodes = (0..n).filter(|i| correct[*i] && !o.fin_by_node[*i].is_empty()).count();
     let faults_fired = kernel::with(|c| c.faults.values().sum::<u64>());
-    let nontrivial = fin_nodes >= 2 && (faults_fired > 0 || profile.fault_free);
+    let qualifying = kernel::with(|c| c.probes.get("c02_qualifying_windows").copied().unwrap_or(0));
+    let nontrivial = if profile.liveness {
+        qualifying >= 1 && (faults_fired > 0 || profile.fault_free)
+    } else {
+        fin_nodes >= 2 && (faults_fired > 0 || profile.fault_free)
+    };
     let sample = json!({
         "cfg": cfg.to_json(),
         "virt_ms": virt_ms,
